@@ -32,6 +32,8 @@ for d, title in rounds:
         bounded = [n for n in names if n.startswith("bounded_")]
         kind = "contract" if contract else "structural" if structural else "bounded" if bounded else "-"
         res = {0: "MISSED (exit 0)", 1: "VIOLATION", 2: "UNDECIDED (exit 2)", 3: "CHECKER ERROR"}.get(rc, "rc=%d" % rc)
+        if rc == 0 and m.get("status_on_current_tree"):
+            res = "exit 0 - correct: the change no longer breaks the property on the repaired tree (its demo passes; see meta.json)"
         tot.setdefault(d, []).append((res, kind))
         show = [n.replace("__", "#", 1).replace("_", ":", 1) if False else n for n in (contract + structural)[:3]] + \
                [n.replace("bounded_bounded_scenario_", "scenario ").replace("bounded_bounded_structures_", "structures ") for n in bounded[:2]]
@@ -47,6 +49,8 @@ for d, title in rounds:
         out.append("* %s: %d changes, %d VIOLATION (%d by a contract obligation, %d structural, %d by the bounded stand-in only), %d undecided, %d missed" % (
             title, len(r), sum(1 for a, _ in r if a == "VIOLATION"), sum(1 for a, k in r if a == "VIOLATION" and k == "contract"),
             sum(1 for a, k in r if a == "VIOLATION" and k == "structural"), sum(1 for a, k in r if a == "VIOLATION" and k == "bounded"),
-            sum(1 for a, _ in r if a.startswith("UNDECIDED")), sum(1 for a, _ in r if a.startswith("MISSED"))))
+            sum(1 for a, _ in r if a.startswith("UNDECIDED")), sum(1 for a, _ in r if a.startswith("MISSED"))) +
+                   ("; %d no longer a violation on the repaired tree (exit 0, correct)" % sum(1 for a, _ in r if a.startswith("exit 0"))
+                    if any(a.startswith("exit 0") for a, _ in r) else ""))
 open(os.path.join(V, "seeded", "RESULTS.md"), "w").write("\n".join(out) + "\n")
 print("\n".join(out[-5:]))
